@@ -164,7 +164,7 @@ def item_fix_rule(repo, out):
         raise TranslateError('visdatav4: _before helper not of the expected shape')
     src = _u(bef[0].body[0].value)
     # the date is read as UTC by katdal itself (strptime + timegm): katpoint.Timestamp(<string>) goes through mktime and
-    # time.timezone of the PROCESS (finding F117); any other reading of the date is refused
+    # time.timezone of the PROCESS (finding C17-F2); any other reading of the date is refused
     want = _u(parse_template("capture_start < calendar.timegm(time.strptime(date, '%Y-%m-%d'))", 'eval').body)
     if src != want:
         raise TranslateError('visdatav4: _before is %s' % src)
